@@ -59,6 +59,14 @@ def forall(vs, body, patterns=()):
         pats.append(p)
     if pats and len(pats) == len(patterns):
         return z3.ForAll(vs, body, patterns=pats)
+    if not patterns and z3.is_quantifier(body) and body.is_forall() and body.num_patterns() == 0:
+        # forall x. forall y. B  ==  forall x, y. B : one quantifier, so that z3 can choose a (multi-)pattern over all the variables
+        # (a nested quantifier whose outer variable occurs in no admissible pattern of its own is never instantiated)
+        n = body.num_vars()
+        inner = [z3.Const("%s!m%d" % (body.var_name(i), _qcnt[0] + i), body.var_sort(i)) for i in range(n)]
+        _qcnt[0] += n
+        ib = z3.substitute_vars(body.body(), *reversed(inner))
+        return z3.ForAll(list(vs) + inner, ib)
     return z3.ForAll(vs, body)
 
 
